@@ -456,6 +456,17 @@ def conic_conic_lattice(ctx):
         except Exception as e:
             ok, got = False, "%s: %s" % (type(e).__name__, e)
         ctx.ensure("circle-x-circle:real-common-points", ok, witness=dict(c1=(c, r), c2=(c2_, r2), got=got))
+        # the same pair with other homogeneous representatives of the matrices (the cubic resolvent scales with the sixth power)
+        for f1, f2 in ((100.0, 1.0), (-100.0, 1.0), (1.0, 0.02), (-3.0, 50.0)):
+            try:
+                a2, b2 = Conic(np.asarray(a.array) * f1), Conic(np.asarray(b.array) * f2)
+                pts = a2.intersect(b2)
+                real = [x for x in pts if bool(x.isreal) and not bool(x.isinf)]
+                ok = len(pts) <= 4 and all(_on_conic(a, x) and _on_conic(b, x) for x in pts) and len(real) == want_real
+                got = len(real)
+            except Exception as e:
+                ok, got = False, "%s: %s" % (type(e).__name__, e)
+            ctx.ensure("circle-x-circle:independent-of-the-representatives-of-the-matrices", ok, witness=dict(c1=(c, r), c2=(c2_, r2), factors=(f1, f2), got=got))
 
 
 def _quadric_line_fixtures():
